@@ -319,6 +319,13 @@ func (i *Index) coversOrdCols(ordExps []*OrdExp, rangesByColID map[uint32]*typed
 	if !ordExpsHaveSameDirection(ordExps) {
 		return false
 	}
+	for _, e := range ordExps {
+		// an index scan yields NULLs first when ascending and last when descending:
+		// an explicit NULLS FIRST/LAST asking for the opposite needs a sort
+		if e.nullsOrder != NullsDefault && (e.nullsOrder == NullsFirst) == e.descOrder {
+			return false
+		}
+	}
 	return i.hasPrefix(i.cols, ordExps) || i.sortableUsing(ordExps, rangesByColID)
 }
 
